@@ -12,7 +12,7 @@ META = {
     "property_id": PID,
     "level": "model_checking",
     "technique": "TLA+ query-meaning spec SQLSem.tla evaluated on the state recorded after every change; TLC trace validation of repeated plain / prepared / API-prepared executions in two sessions across DML and index DDL histories",
-    "text": "Every re-execution of a query text (6 execution paths x every step of the history) must be an acceptable result of the query's meaning over the database as it is at that moment, so rows cached from an earlier state (subquery caches, hash tables, cached join sides, prepared plans, per-session table snapshots) are rejected; the two plain executions per step also give the determinism clause.",
+    "text": "Every re-execution of a query text (6 execution paths x every step of the history) must be an acceptable result of the query's meaning over the database as it is at that moment, so rows cached from an earlier state (subquery caches, hash tables, cached join sides, prepared plans, per-session table snapshots) are rejected; the two plain executions per step also give the determinism clause; and ~280 catalogued read-only statements over a table with one column of every scalar type must leave a full scan of it unchanged (a Query action changes nothing).",
     "note": "The post-change database state is read from the engine with plain SELECT * scans (the DML itself is judged by C13); interpreted fragment of SQLSem; statement-granular interleaving of two sessions with autocommit.",
 }
 
@@ -22,8 +22,8 @@ def check(tier):
     gen_args = ["-mode", "c11", "-seed", str(lib.seed()), "-histories", str(nh), "-steps", str(steps), "-queries", str(nq)]
     return sc.driver_check(PID, tier, gen_args,
                            "seeded histories of %d state changes x %d repeated queries with cacheable operators x 6 execution paths (2 sessions); non-trivial = the query's result differs from its result at the previous step" % (steps, nq),
-                           chunk=15 if tier == "quick" else 60, binary="hist")
+                           chunk=15 if tier == "quick" else 60, binary="hist", module="Trace_Laws")
 
 
 def replay(path):
-    return sc.replay_case(PID, path)
+    return sc.replay_case(PID, path, module="Trace_Laws")
